@@ -246,11 +246,13 @@ class DerivedTypeArgumentsTransformation(Transformation):
 
         kwarguments = []
         for kernel_argname, caller_arg in call.kwarguments:
-            if kernel_argname in expansion_map:
-                expanded_arguments = cls._expand_call_argument(caller_arg, expansion_map[kernel_argname])
+            # The keyword may be spelled in any letter case at the call site
+            argname = str(kernel_argname).lower()
+            if argname in expansion_map:
+                expanded_arguments = cls._expand_call_argument(caller_arg, expansion_map[argname])
                 kwarguments += [
                     (cls._expand_kernel_variable(kernel_arg).name, caller_arg)
-                    for kernel_arg, caller_arg in zip(expansion_map[kernel_argname], expanded_arguments)
+                    for kernel_arg, caller_arg in zip(expansion_map[argname], expanded_arguments)
                 ]
             else:
                 kwarguments += [(kernel_argname, caller_arg)]
